@@ -41,6 +41,15 @@ def r0(src):  # GOROOT/src/runtime/time.go: tie-break of same-instant fake timer
     return src.replace(old, "\t\t\tt.rand = verifTimerRand()\n") + R0_TAIL, src.count(old), 1
 
 
+def r0b(src):  # GOROOT/src/runtime/proc.go: sysmon's forced pre-emption after 10 ms becomes 2 s
+    # On an oversubscribed machine the OS can keep the single P's thread off the CPU for more than
+    # 10 ms; sysmon then pre-empts the goroutine that "ran too long" and the run queue order
+    # changes: the one scheduling decision not taken by the tape. 2 s is far beyond any cascade of
+    # the system under test and still frees the P for the watchdog if something spins.
+    old = "const forcePreemptNS = 10 * 1000 * 1000 // 10ms"
+    return src.replace(old, "const forcePreemptNS = 2 * 1000 * 1000 * 1000 // 2s (verif overlay R0b)"), src.count(old), 1
+
+
 def r1(src):  # h2/h2.go: tls.Dial -> verifDial (falls back to tls.Dial when VerifDial is nil)
     n = src.count("tls.Dial(")
     return src.replace("tls.Dial(", "verifDial("), n, 1
@@ -101,6 +110,19 @@ def r7(src):  # trafficshape/conn.go: per-connection buckets are stopped in sort
     return src.replace(old, new), src.count(old), 1
 
 
+LOCK_RE = re.compile(r"^([ \t]*)([A-Za-z_][\w\.\[\]\(\)\*]*\.R?Lock\(\))[ \t]*$", re.M)
+
+
+def lock_yield(label):
+    # R8: a yield point before every statement that acquires a mutex in the file; the harness parks
+    # a goroutine there so that another one can run between two critical sections (or between the
+    # check and the act of one that was split). Any number of sites >= 1: the rewrite is generic.
+    def fn(src):
+        out, n = LOCK_RE.subn(lambda m: '%sverifYield("lock:%s")\n%s%s' % (m.group(1), label, m.group(1), m.group(2)), src)
+        return out, n, -1
+    return fn
+
+
 REWRITES = [
     ("R1", "h2/h2.go", r1),
     ("R2", "h2/relay.go", r2),
@@ -109,6 +131,10 @@ REWRITES = [
     ("R5", "mitm/mitm.go", r5),
     ("R6", "trafficshape/listener.go", r6),
     ("R7", "trafficshape/conn.go", r7),
+    ("R8", "multierror.go", lock_yield("multierror")),
+    ("R8", "har/har.go", lock_yield("har")),
+    ("R8", "martianhttp/martianhttp.go", lock_yield("martianhttp")),
+    ("R8", "fifo/fifo_group.go", lock_yield("fifo")),
 ]
 
 
@@ -126,8 +152,10 @@ def main():
             # layer-1 hook file for this package not present yet: seam not available
             continue
         src = open(path).read()
+        if path in replace:
+            src = open(replace[path]).read()  # a second rewrite of the same file stacks on the first
         new, n, want = fn(src)
-        if n != want:
+        if (want < 0 and n < 1) or (want >= 0 and n != want):
             sys.stderr.write("instrument: %s matched %d sites in %s, expected %d\n" % (rid, n, rel, want))
             sys.exit(2)
         dst = os.path.join(outdir, rel.replace("/", "__"))
@@ -145,6 +173,14 @@ def main():
             sys.stderr.write("instrument: R0 matched %d sites in %s, expected %d\n" % (n, path, want))
             sys.exit(2)
         dst = os.path.join(outdir, "goroot__runtime__time.go")
+        open(dst, "w").write(new)
+        replace[path] = dst
+        path = os.path.join(goroot, "src", "runtime", "proc.go")
+        new, n, want = r0b(open(path).read())
+        if n != want:
+            sys.stderr.write("instrument: R0b matched %d sites in %s, expected %d\n" % (n, path, want))
+            sys.exit(2)
+        dst = os.path.join(outdir, "goroot__runtime__proc.go")
         open(dst, "w").write(new)
         replace[path] = dst
     ov = os.path.join(outdir, "overlay.json")
